@@ -85,3 +85,32 @@ def run(prog, chk):
     # a send that waits for a stalled re-key must give up (raise) after clear_to_send_timeout: the deadline rule of C13
     from .c13 import _deadlines_are_loop_invariant
     _deadlines_are_loop_invariant(prog, chk)
+    # R4: shutdown(how) - 1 and 2 end writing (EOF built under the lock and sent), 0 and 2 end reading; evaluated from the AST
+    from ..core.interp import Interp, Obj, Refuse
+    sh = prog.func("Channel.shutdown")
+    ps = sh.params()
+    bad = None
+    for how in (0, 1, 2):
+        log = []
+        held = []
+        lock = Obj(acquire=lambda: held.append(1), release=lambda: held.pop())
+        tr = Obj(_send_user_message=lambda m_: log.append(("sent", m_, bool(held))))
+
+        def send_eof(log=log, held=held):
+            log.append(("eof-built", bool(held)))
+            return "EOFMSG"
+        selfo = Obj(lock=lock, transport=tr, eof_received=0, _send_eof=send_eof)
+        it = Interp(intrinsics={}, arith=False)
+        try:
+            kind, val = it.call_function(sh.node, {ps[0]: selfo, ps[1]: how})
+        except Refuse as e:
+            raise AnalysisError("Channel.shutdown", "not evaluable: %s" % (e,))
+        wrote = ("eof-built", True) in log and ("sent", "EOFMSG", False) in log
+        nothing = not log
+        read_end = bool(getattr(selfo, "eof_received", 0))
+        good = kind == "return" and (wrote if how in (1, 2) else nothing) and (read_end == (how in (0, 2))) and not held
+        if not good and bad is None:
+            bad = "shutdown(%d): %s, events %s, eof_received=%r" % (how, kind, log, getattr(selfo, "eof_received", None))
+    chk.ob("R4.shutdown-how-table", "Channel.shutdown", bad is None, sh.loc,
+           "how = 0, 1, 2 evaluated: EOF built under the lock and sent outside it for 1 and 2, reading ended for 0 and 2%s" % ("" if bad is None else "; first failing: " + bad))
+
